@@ -9,6 +9,10 @@ CHECKS = {
          'Static structural analysis of the scheduler sources: decides the named necessary conditions (single writer of node occupancy, every granting path marks the slots found, every start is a grant, the search tests each kind it debits, free/share guards on every pick, cursor/tally advanced between picks, blocked=DOWN before filtering, agent nodes moved) on every path/site of the anchored functions. It does not decide the behaviour for all numeric inputs.',
          'Trusted: ru.lazy_bisect partition contract; no monkey patching; aliasing by reference propagation only. Not decided: slots_per_node arithmetic, overlapping application-supplied placements (known finding K1), real interleavings.',
          'DESIGN.md section 5 / C01'),
+ 'C02': ('count-discipline, paired-update and dependence rules on CFG/def-use of the per-node search and schedule_task',
+         'Static structural analysis: a slot is appended only past a count-reached test for each kind it picks, picking stops at the requested number, short lists only when partial, remaining-count/collected-list updated and reset together, complete-placement return, search arguments and slot fields derive from the matching request attributes, ranks_per_node bounds the per-node search, colocate membership guard. Necessary conditions on every path of the anchored functions; not the correctness of the chosen indices.',
+         'Scope Continuous/ContinuousJsrun. Not decided: numeric adequacy, index choice for every occupancy. R02.3 asserts are information only.',
+         'DESIGN.md section 5 / C02'),
 }
 PENDING = 'check not built yet in this round (static rules designed in DESIGN.md section 5); not claimed until the checker exists'
 NA = {}
